@@ -14,9 +14,12 @@ def h64(s):
     return int.from_bytes(hashlib.blake2b(s.encode('utf-8', 'surrogatepass'), digest_size=8).digest(), 'big')
 
 
-def variants(toks, tier):
-    """yield (tag, tokens): the sentence itself and its post-pass variants"""
+def variants(toks, tier, cost=0):
+    """yield (tag, tokens): the sentence itself and its post-pass variants (a post-pass counts as one more deviation:
+    it is applied to sentences of cost <= 2 only, so the thorough tier explores cost<=3 bases + cost<=2 variants)"""
     yield 'base', toks
+    if cost > 2:
+        return
     names = [i for i, t in enumerate(toks) if gref.is_name_token(t)]
     for i in names:
         for s in SOFT:
@@ -97,7 +100,7 @@ def run_shard(args):
     for path in paths:
         for toks, cost in K.sentences(path, d, start):
             r.transitions += 1
-            for tag, vt in variants(toks, tier):
+            for tag, vt in variants(toks, tier, cost):
                 text = gref.render(vt)
                 if text in seen:
                     continue
